@@ -4,6 +4,7 @@ import (
 	"fmt"
 	"math"
 	"sort"
+	"strings"
 
 	"github.com/openacid/low/bitmap"
 	"github.com/openacid/low/bmtree"
@@ -61,6 +62,19 @@ func init() {
 		r1 := bmtree.PathsOf(c11Expand(al, a[1]), a[3].I32(), a[4].I32(), a[5].Bool())
 		r2 := bmtree.PathsOf(c11Expand(al, a[2]), a[3].I32(), a[4].I32(), a[5].Bool())
 		return L(c11RLE(r1), c11RLE(r2))
+	}
+	// [keys1, keys2, from, h, dedup2, junk] -> r1 := PathsOf(keys1, dedup), r2 := PathsOf(keys2, dedup2), r1 = append(r1, junk...)
+	Exec["bmtree.PathsOf/append"] = func(a []V) string {
+		r1 := bmtree.PathsOf(a[0].Strs(), a[2].I32(), a[3].I32(), true)
+		r2 := bmtree.PathsOf(a[1].Strs(), a[2].I32(), a[3].I32(), a[4].Bool())
+		r1 = append(r1, a[5].U64s()...)
+		return L(U64s(r1), U64s(r2))
+	}
+	// [P, n, T, from, w] -> FromStr32(P^n + T, from, from+w)
+	Exec["bitmap.FromStr32/big"] = func(a []V) string {
+		s := strings.Repeat(a[0].Str(), a[1].Int()) + a[2].Str()
+		k, v := bitmap.FromStr32(s, a[3].I32(), a[3].I32()+a[4].I32())
+		return L(I32(k), U(v))
 	}
 	Register("C11", genC11)
 }
@@ -305,9 +319,11 @@ func c11Long(g *Gen) {
 			return runs
 		},
 	}
-	ns := []int{1025, 1026, 2047, 2048, 2049, 3073, 4100}
+	// (>= 4096 keys: also the sizes from which a batch implementation may go parallel; these are the slowest
+	// cases of the run, so main.go re-runs them under GOMAXPROCS 3, 33 and 97)
+	ns := []int{1025, 1026, 2047, 2048, 2049, 3073, 4096, 4100, 5000, 6000}
 	if g.Thorough {
-		ns = append(ns, 1024, 1030, 1500, 2050, 3000, 3072, 4096, 4097)
+		ns = append(ns, 1024, 1030, 1500, 2050, 3000, 3072, 4095, 4097, 5555, 8192)
 	}
 	for _, n := range ns {
 		for pi, pat := range patterns {
@@ -333,6 +349,70 @@ func c11Long(g *Gen) {
 					fmt.Sprintf("longheld/dd%v/n%d", dd, n/1024))
 			}
 		}
+	}
+}
+
+// c11Append: a dedup call that really drops duplicates (len < number of keys), another small call, then the caller
+// appends to the first result; sizes up to and beyond 256 keys.
+func c11Append(g *Gen) {
+	n := g.N(150, 1500)
+	for k := 0; k < n; k++ {
+		al := alphabets[g.R.Intn(len(alphabets))]
+		nd := g.R.Range(1, 6) // distinct keys
+		if g.R.Intn(6) == 0 {
+			nd = g.R.Range(7, 90)
+		}
+		keys1 := [][]byte{}
+		dups := 0
+		for i := 0; i < nd; i++ {
+			key := g.R.Bytes(g.R.Range(0, 3), al)
+			rep := g.R.Pick(1, 1, 2, 3, g.R.Range(1, 5))
+			for j := 0; j < rep; j++ {
+				keys1 = append(keys1, key)
+			}
+			dups += rep - 1
+		}
+		nk2 := g.R.Range(1, 5)
+		keys2 := make([][]byte, nk2)
+		for i := range keys2 {
+			keys2[i] = g.R.Bytes(g.R.Range(1, 3), al)
+		}
+		nj := g.R.Range(1, dups+2)
+		junk := make([]uint64, nj)
+		for i := range junk {
+			junk[i] = 0xdead000000000000 | uint64(g.R.Intn(1<<16))
+		}
+		key := ""
+		if dups > 0 {
+			key = fmt.Sprintf("append/n%d/dups%d/j%d/n2_%d", minInt(len(keys1)/8, 6), minInt(dups, 4), minInt(nj, 3), nk2)
+		}
+		g.Stat("pathsof-append")
+		g.Do("bmtree.PathsOf/append", L(ByteSlices(keys1), ByteSlices(keys2), Int(g.R.Pick(0, 0, 4)), Int(g.R.Pick(8, 16, 32)), B(g.R.Bool()), U64s(junk)), key)
+	}
+}
+
+// c11Big: a 40 MB (and a 32 MB + 1) string given as pattern^n + tail; windows around bit 2^28-8 (byte 2^25-1), deep
+// inside, and at the very end of the string.
+func c11Big(g *Gen) {
+	pat := []byte{0xa5, 0x5a, 0xff, 0x00, 0x81, 0x7e, 0x01, 0x80}
+	tail := []byte{0xc3}
+	type bc struct{ n, from, w int }
+	cases := []bc{
+		{5242880, 1<<28 - 9, 7}, {5242880, 1<<28 - 8, 32}, {5242880, 1<<28 + 3, 32}, {5242880, 8*41943041 - 20, 32},
+	}
+	if g.Thorough {
+		for _, n := range []int{5242880, 4194304} { // 40 MB + 1, 32 MB + 1
+			total := 8*n + 1
+			for _, from := range []int{12345*8 + 3, 1<<28 - 40, 1<<28 - 33, 1<<28 - 9, 1<<28 - 8, 1<<28 - 7, 1 << 28, 1<<28 + 5, 8*total - 33, 8*total - 8, 8*total - 3, 8 * total, 8*total + 9} {
+				for _, w := range []int{1, 7, 8, 25, 32} {
+					cases = append(cases, bc{n, from, w})
+				}
+			}
+		}
+	}
+	for _, c := range cases {
+		g.Stat("big-string")
+		g.Do("bitmap.FromStr32/big", L(Bytes(pat), Int(c.n), Bytes(tail), Int(c.from), Int(c.w)), fmt.Sprintf("big/%d/w%d", c.from>>26, c.w))
 	}
 }
 
@@ -426,6 +506,8 @@ func genC11(g *Gen) {
 	// (0b) long key lists (more than 1024 keys) in compact form, and the far end of int32
 	c11Long(g)
 	c11Far(g)
+	c11Append(g)
+	c11Big(g)
 
 	// (1) exhaustive: all strings of length 0..L over {00,80,ff,01,a5} x all from in [0, min(56, 8n+9)] and 56
 	//     x all w in [0,32]; FromStr32, PathOf and PathStr(PathOf)
